@@ -14,6 +14,8 @@ REWRITES = [
     Rewrite('R2-generics', r'Tendril<F, A>', 'Tendril'),
     # R6: the tagged pointer is read through an accessor of the model
     Rewrite('R6-tag', r'\b(self|other)\.ptr\.get\(\)\.get\(\)', r'\1.tag()', min_count=5),
+    Rewrite('R6-tag', r'self\.ptr\.set\(inline_tag\(new_len\)\)', 'self.set_tag(inline_tag(new_len))', only=('Tendril::push_uninitialized',), min_count=1),
+    Rewrite('R15-msg', r'\.expect\(OFLOW\)', '.unwrap()', only=('Tendril::push_uninitialized',)),
     Rewrite('R6-tag', r'self\.ptr\s*\.set\(unsafe \{ NonZeroUsize::new_unchecked\(EMPTY_TAG\) \}\)', 'self.set_tag(EMPTY_TAG)', only=('Tendril::clear',), min_count=6),
     # R1: interior mutability (ptr is a Cell, the union is an UnsafeCell) made explicit
     Rewrite('R1-receiver', r'unsafe fn unsafe_subtendril\(&self,', 'unsafe fn unsafe_subtendril(&mut self,', only=('Tendril::unsafe_subtendril',)),
@@ -39,6 +41,9 @@ PARTS = [
     t('len32'), t('is_shared'), t('clear'), t('try_push_bytes'), t('push_tendril'),
     t('try_subtendril'), t('subtendril'), t('try_pop_front'), t('pop_front'), t('try_pop_back'), t('pop_back'),
     t('unsafe_subtendril'), t('unsafe_pop_front'), t('unsafe_pop_back'),
+    Item(T, 'fn', 'inline_tag', rewrites=(Rewrite('R6-tag', r'-> NonZeroUsize', '-> usize'),
+                                          Rewrite('R6-tag', r'unsafe \{ NonZeroUsize::new_unchecked\((.*)\) \}', r'\1'))),
+    t('push_uninitialized'),
     Raw('} // verus!\nfn main() {}'),
 ]
 DROPS = ['the format and atomicity type parameters (validity is an uninterpreted predicate; reference counts are not modelled)',
